@@ -34,6 +34,9 @@ type WorkerPool struct {
 	// shutdownSignal is the channel that is used to signal the workers to shut down.
 	shutdownSignal chan struct{}
 
+	// liveWorkers is the number of workers that have not exited yet.
+	liveWorkers atomic.Int32
+
 	// workerCount is the number of workers that are used to execute tasks, defaults to twice the amount of logical CPUs.
 	workerCount int
 
@@ -64,26 +67,36 @@ func New(name string, opts ...options.Option[WorkerPool]) *WorkerPool {
 
 // Start starts the WorkerPool.
 func (w *WorkerPool) Start() *WorkerPool {
-	// wait for a previous shutdown to complete before taking the lock: the dispatcher reads isRunning under the read
-	// lock, so it (and with it the workers) can only finish shutting down while the lock is free.
-	if !w.IsRunning() {
+	// never wait for a previous shutdown while holding the lock: the dispatcher and Submit read isRunning under the
+	// read lock, so the shutdown can only complete while the lock is free.
+	for !w.startIfStopped() {
+		verifStartWindow(w)
 		w.ShutdownComplete.Wait()
-	}
-
-	verifStartWindow(w)
-	w.mutex.Lock()
-	defer w.mutex.Unlock()
-
-	if !w.isRunning {
-		w.ShutdownComplete.Wait()
-
-		w.isRunning = true
-
-		w.startDispatcher()
-		w.startWorkers()
 	}
 
 	return w
+}
+
+// startIfStopped starts the WorkerPool unless it is running already (true) or the workers of a previous run have not all
+// exited yet (false).
+func (w *WorkerPool) startIfStopped() (done bool) {
+	w.mutex.Lock()
+	defer w.mutex.Unlock()
+
+	if w.isRunning {
+		return true
+	}
+
+	if w.liveWorkers.Load() > 0 {
+		return false
+	}
+
+	w.isRunning = true
+
+	w.startDispatcher()
+	w.startWorkers()
+
+	return true
 }
 
 // Submit submits a new task to the WorkerPool.
@@ -228,6 +241,7 @@ func (w *WorkerPool) dispatcher() {
 func (w *WorkerPool) startWorkers() {
 	for range w.workerCount {
 		w.ShutdownComplete.Add(1)
+		w.liveWorkers.Add(1)
 
 		go w.worker()
 	}
@@ -235,6 +249,7 @@ func (w *WorkerPool) startWorkers() {
 
 // worker is a worker that executes tasks.
 func (w *WorkerPool) worker() {
+	defer w.liveWorkers.Add(-1)
 	defer w.ShutdownComplete.Done()
 
 	w.workerReadLoop()
